@@ -786,6 +786,15 @@ pub fn run(ctx: &Ctx) -> i32 {
             }
         }
     }
+    // a set of 70 000 items (a counter of items or a per-round index narrower than usize shows after 2^16 items)
+    for v in VARIANTS {
+        if v == Variant::P3aShaStr {
+            continue;
+        }
+        for f in large_set_orders(v, 16, 1, 70_000, &mut st) {
+            ctx.violation(&f.key, &f.what, f.case);
+        }
+    }
     // signature lengths around 2^16 (an index or counter narrower than usize shows there): one set of 12 items, all orders /
     // entry points of large_set_orders, ProbMinHash3 == ProbMinHash3a
     for v in VARIANTS {
@@ -891,7 +900,7 @@ pub fn run(ctx: &Ctx) -> i32 {
         "exhaustive": true,
         "evaluations": st.execs,
         "distinct_nontrivial": st.distinct_sigs,
-        "rule": "for ProbMinHash2, 3, 3a (Fnv and no-op hashers), 3a-Sha (u64 and String keys), m in {2,3,4,8,16,(33)}: every non-empty weighted set over 4 (5) items x weights {absent,0.5,1,3,1e-300,1e300}, ALL insertion orders, every entry point (hash_item, hash_wset, IndexMap, std HashMap), every 2-way batch split, every re-insertion of an already inserted pair at every later point; registers (hook H2) must equal the position-wise minimum and the signature the argmin of the REAL single-item runs (exact; bit-equal ties are classified and only checked for membership), every position holds an item of the set; plus forced near-ties (weights tuned from the real single-item runs so that two items differ by 1e-9 .. 3e-15 relative at a chosen position, both orders), weight scaling by 2^k, the union clause on sets up to 300 items, ProbMinHash3 == ProbMinHash3a on all 1295 sets and on hundreds of two-item sets at m = 5000, 2000, 3001 (12289), all subsets of 4 items in all orders with a placeholder object that is itself an item id, 40 (300) sets of 2000 / 300 / 50 items with 13 weight classes in forward / reversed / shuffled order through every entry point (m = 256 / 64 / 16, and n below m: 150 / 40 / 30 items at m = 256 / 64 / 1024; one 12-item set at m = 65535, 65536, 65537), and single items with weights down to the smallest normal float; distinct = distinct signatures",
+        "rule": "for ProbMinHash2, 3, 3a (Fnv and no-op hashers), 3a-Sha (u64 and String keys), m in {2,3,4,8,16,(33)}: every non-empty weighted set over 4 (5) items x weights {absent,0.5,1,3,1e-300,1e300}, ALL insertion orders, every entry point (hash_item, hash_wset, IndexMap, std HashMap), every 2-way batch split, every re-insertion of an already inserted pair at every later point; registers (hook H2) must equal the position-wise minimum and the signature the argmin of the REAL single-item runs (exact; bit-equal ties are classified and only checked for membership), every position holds an item of the set; plus forced near-ties (weights tuned from the real single-item runs so that two items differ by 1e-9 .. 3e-15 relative at a chosen position, both orders), weight scaling by 2^k, the union clause on sets up to 300 items, ProbMinHash3 == ProbMinHash3a on all 1295 sets and on hundreds of two-item sets at m = 5000, 2000, 3001 (12289), all subsets of 4 items in all orders with a placeholder object that is itself an item id, 40 (300) sets of 2000 / 300 / 50 items with 13 weight classes in forward / reversed / shuffled order through every entry point (m = 256 / 64 / 16, and n below m: 150 / 40 / 30 items at m = 256 / 64 / 1024; one 12-item set at m = 65535, 65536, 65537; one 70 000-item set at m = 16), and single items with weights down to the smallest normal float; distinct = distinct signatures",
         "weighted_sets": st.sets,
         "forced_near_ties": nears,
         "exact_ties_classified": st.ties,
